@@ -42,6 +42,11 @@ def BaseType.isEmpty (b : BaseType) : Bool :=
 
 def Schema.NoEmptyType (σ : Schema) : Prop := ∀ ty ∈ σ.allTypes, ty.inner.isEmpty = false
 
+/-- member names are unique within every enum (guaranteed by the parser since commit ed6fa67:
+    `parseEnumField` rejects a repeated member name). -/
+def Schema.EnumMembersUnique (σ : Schema) : Prop :=
+  ∀ e ∈ σ.enums, (e.fields.map (·.name)).Nodup
+
 /-- The conclusion of C12 for an accepted schema. -/
 structure Schema.WF (σ : Schema) : Prop where
   /-- top-level names are unique across structs, oneofs, multimaps and enums -/
@@ -54,10 +59,8 @@ structure Schema.WF (σ : Schema) : Prop where
   refs_resolve : ∀ ty ∈ σ.allTypes, ty.inner.Resolved σ
   /-- every field, key and value has a type -/
   no_empty_type : σ.NoEmptyType
-
-/-- member names of every enum are unique (NOT guaranteed by the parser, see C12). -/
-def Schema.EnumMembersUnique (σ : Schema) : Prop :=
-  ∀ e ∈ σ.enums, (e.fields.map (·.name)).Nodup
+  /-- member names are unique within every enum -/
+  enum_members_unique : σ.EnumMembersUnique
 
 /-! ### C13 -/
 
